@@ -313,10 +313,51 @@ fn block_ties(ctx: &mut Ctx, prims: &[(String, Box<dyn Prims>)]) {
         want.push(ans);
         ctx.count("block_tie", op);
     }
+    // whole transforms on multi-block flat memory: engine family vs its transliterated loop nest
+    // (contract-valid region + frame only: both are compared after masking the garbage region)
+    let n_t = if thorough { 1500 } else { 150 };
+    let mut masks: Vec<Option<Vec<bool>>> = want.iter().map(|_| None).collect();
+    for i in 0..n_t {
+        let c = gen_fft_case(ctx, 5);
+        let (name, p) = &prims[i % prims.len()];
+        if name == "default" { continue; }
+        let sched = if name == "naive" { "naive" } else { "two" };
+        let out = run_fft(p.as_ref(), &c);
+        let valid_hi = if c.inverse { c.size } else { c.trunc };
+        // block-level validity mask
+        let mask: Vec<bool> = (0..c.count * c.len64).map(|b| { let sh = b / c.len64; sh < c.pos || sh >= c.pos + c.size || sh < c.pos + valid_hi }).collect();
+        q.push(format!("T flatfft {} {} {} {} {} {} {} {} {}", sched, if c.inverse { "ifft" } else { "fft" }, c.count, c.len64, c.pos, c.size, c.trunc, c.delta, hex(&c.data)));
+        want.push(hex(&out));
+        masks.push(Some(mask));
+        ctx.count("block_tie", "flat-transform");
+    }
+    // whole encoders: dedicated encoders of the implementation (shard size a multiple of 64, so that the
+    // exposed bytes are the blocks) vs the encode body on flat memory, stale memory zero in the model
+    let n_e = if thorough { 600 } else { 80 };
+    for i in 0..n_e {
+        let kind = if i % 2 == 0 { "high" } else { "low" };
+        let (_, k, r) = crate::gen::gen_counts(&mut ctx.rng, 32, &[kind]);
+        let len64 = ctx.rng.range(1, 2);
+        let engine = *ctx.rng.pick(&["naive", "nosimd", "avx2", "ssse3"]);
+        let cfg = crate::gen::Cfg { kind: kind.into(), engine: engine.into(), k, r, sb: 64 * len64 };
+        let originals: Vec<Vec<u8>> = (0..k).map(|_| ctx.rng.bytes(64 * len64)).collect();
+        let Some(rec) = crate::gen::encode_impl(&cfg, &originals) else { continue };
+        let wc = if kind == "high" { k.next_multiple_of(crate::gen::npow2(r)) } else { r.next_multiple_of(crate::gen::npow2(k)) };
+        let mut mem: Vec<u8> = originals.iter().flat_map(|o| o.iter().cloned()).collect();
+        mem.resize(wc * 64 * len64, 0);
+        q.push(format!("T flatenc {} {} {} {} {} {}", if engine == "naive" { "naive" } else { "two" }, kind, k, r, len64, crate::objs::to_hex(&mem)));
+        want.push(crate::objs::to_hex(&rec.iter().flat_map(|x| x.iter().cloned()).collect::<Vec<u8>>()));
+        masks.push(None);
+        ctx.count("block_tie", "flat-encoder");
+    }
     match ctx.model_eval(&q) {
         Ok(ans) => {
-            for ((l, a), w) in q.iter().zip(ans.iter()).zip(want.iter()) {
-                if a != w {
+            for (((l, a), w), m) in q.iter().zip(ans.iter()).zip(want.iter()).zip(masks.iter()) {
+                let equal = match m {
+                    None => a == w,
+                    Some(mask) => a.len() == w.len() && mask.iter().enumerate().all(|(b, v)| !*v || a[b * 128..(b + 1) * 128] == w[b * 128..(b + 1) * 128]),
+                };
+                if !equal {
                     let case = Case { name: "block-tie".into(), lines: vec![l.clone()], with_model: true };
                     ctx.model_fail(format!("block-level model answers `{}` but the implementation gives `{}` for `{}`", crate::ctx::short(a), crate::ctx::short(w), crate::ctx::short(l)), &case, None);
                 }
